@@ -616,7 +616,7 @@ impl ConnectionEngine {
 //@@ subst `self.control.close();` => `self.control.close_published(Ghost(self.connection.stop_set@ is Some));` rule=R9
 //@@ subst `self.outgoing_session_frames.close();` => `self.outgoing_session_frames.close_published(Ghost(self.connection.stop_set@ is Some));` rule=R9
 //@@ subst `self.transport.close().map_err(Into::into)` => `self.transport.close().map_err(|e: TransportError| -> (o: ConnectionInnerError) ensures o == transport_err_to_inner(e) { e.err_into() })` rule=R17
-//@@ subst `outcome.and(close).map_err(Into::into)` => `outcome.and(close).map_err(|e: ConnectionInnerError| -> (o: Error) ensures o == inner_to_error(e) { inner_into_error(e) })` rule=R17
+//@@ subst `.and(__E1).map_err(Into::into)` => `.and(__E1).map_err(|e: ConnectionInnerError| -> (o: Error) ensures o == inner_to_error(e) { inner_into_error(e) })` rule=R17
 //@@ spec
     requires
         tx.owes_ok@ == (outcome is Ok && old(self).connection.st is End),             // the event loop ended with the close handshake complete (END) and no handler reported an error
